@@ -94,8 +94,8 @@ Qed.
 (* ---------- ratio shifting ---------- *)
 Definition PMSafe (pm : pmtp_state) : Prop := 1 <= pm_epoch_len pm /\ - PREC < pm_gov pm.
 
-Lemma update_pmtp_params_safe s g el st en s' :
-  PMSafe (pol_pmtp s) -> update_pmtp_params s g el st en = Ok s' ->
+Lemma update_pmtp_params_safe s g el st en br s' :
+  PMSafe (pol_pmtp s) -> update_pmtp_params s g el st en br = Ok s' ->
   PMSafe (pol_pmtp s') /\ pol_height s < pm_start (pol_pmtp s') <= pm_end (pol_pmtp s') /\
   Z.rem (pm_end (pol_pmtp s') - pm_start (pol_pmtp s') + 1) (pm_epoch_len (pol_pmtp s')) = 0 /\
   pol_lp s' = pol_lp s /\ pol_rewards s' = pol_rewards s /\ pol_lppd s' = pol_lppd s /\ pol_height s' = pol_height s.
@@ -106,10 +106,44 @@ Proof.
   destruct (Z.eqb_spec (Z.rem (en - st + 1) el) 0) as [Er|]; [|discriminate]. cbn [negb].
   destruct (in_window s); [discriminate|]. destruct (Z.leb_spec st (pol_height s)); [discriminate|].
   destruct g as [| |gv].
-  - intros [= <-]. cbn -[Z.rem PREC]. unfold PMSafe; cbn -[Z.rem PREC]. repeat split; try lia; try exact Er.
+  - intros Hup. apply bind_ok_inv in Hup as (u & _ & Hup). injection Hup as <-. cbn -[Z.rem PREC]. unfold PMSafe; cbn -[Z.rem PREC]. repeat split; try lia; try exact Er.
   - discriminate.
-  - destruct (Z.leb_spec gv (- PREC)); [discriminate|]. intros [= <-]. cbn -[Z.rem PREC]. unfold PMSafe; cbn -[Z.rem PREC]. repeat split; try lia; try exact Er.
+  - destruct (Z.leb_spec gv (- PREC)); [discriminate|]. intros Hup. apply bind_ok_inv in Hup as (u & _ & Hup). injection Hup as <-.
+    cbn -[Z.rem PREC]. unfold PMSafe; cbn -[Z.rem PREC]. repeat split; try lia; try exact Er.
 Qed.
+
+(* an accepted policy of negative rate: on its last block PolicyCalculations, run with the block rate PolicyStart will store,
+   gives a running rate above -1 (1 + rate > 0: nothing in block processing divides by zero because of it) - whatever the
+   earlier policies left behind *)
+Lemma end_rate_ok_inv pm br : end_rate_ok pm br = Ok tt -> pm_gov pm < 0 ->
+  exists b, br = Some b /\ (0 <= b \/ exists r, policy_end_rate pm b = Ok r /\ - PREC < r).
+Proof.
+  unfold end_rate_ok. intros Hok Hg. destruct (Z.leb_spec 0 (pm_gov pm)) as [Hge|Hlt]; [lia|].
+  destruct br as [b|]; [|discriminate]. exists b. split; [reflexivity|].
+  destruct (Z.leb_spec 0 b) as [Hb|Hb]; [left; assumption|right].
+  apply bind_ok_inv in Hok as (r & Hr & Hok). exists r. split; [exact Hr|].
+  destruct (Z.leb_spec r (- PREC)) as [Hr2|Hr2]; [discriminate|lia].
+Qed.
+Lemma update_pmtp_params_end_rate s g el st en br s' :
+  update_pmtp_params s g el st en br = Ok s' -> pm_gov (pol_pmtp s') < 0 ->
+  pm_inter (pol_pmtp s') = pm_inter (pol_pmtp s) /\
+  exists b, br = Some b /\ (0 <= b \/ exists r, policy_end_rate (pol_pmtp s') b = Ok r /\ - PREC < r).
+Proof.
+  unfold update_pmtp_params.
+  destruct (el <=? 0); [discriminate|]. destruct (st <? 0); [discriminate|].
+  destruct (en <=? 0); [discriminate|]. destruct (en <? st); [discriminate|].
+  destruct (negb _); [discriminate|]. destruct (in_window s); [discriminate|]. destruct (st <=? pol_height s); [discriminate|].
+  destruct g as [| |gv].
+  - intros Hup. apply bind_ok_inv in Hup as (u & Hu & Hup). injection Hup as <-. cbn [pol_pmtp]. intros Hg. split; [reflexivity|].
+    destruct u. exact (end_rate_ok_inv _ _ Hu Hg).
+  - discriminate.
+  - destruct (gv <=? - PREC); [discriminate|]. intros Hup. apply bind_ok_inv in Hup as (u & Hu & Hup). injection Hup as <-. cbn [pol_pmtp].
+    intros Hg. split; [reflexivity|]. destruct u. exact (end_rate_ok_inv _ _ Hu Hg).
+Qed.
+(* ... and that is the rate the begin blocker computes on that block: PolicyStart stores the block rate, PolicyCalculations uses it *)
+Lemma policy_end_rate_is_calc pm b r : policy_end_rate pm b = Ok r ->
+  exists pm', policy_calc (pm <| pm_block_rate := b |>) (pm_end pm) = Ok pm' /\ pm_running pm' = r.
+Proof. unfold policy_end_rate. intros H. apply bind_ok_inv in H as (pm' & Hc & H). injection H as <-. exists pm'. auto. Qed.
 
 Lemma modify_pmtp_rates_safe s b r e s' :
   PMSafe (pol_pmtp s) -> modify_pmtp_rates s b r e = Ok s' ->
@@ -271,7 +305,7 @@ Proof.
   - destruct (forallb lppd_valid ps) eqn:Ev; [|discriminate]. injection H as <-. split; [|reflexivity].
     split; [exact HL|]. split; [exact HP|]. split; [exact HR|].
     rewrite forallb_forall in Ev. apply Forall_forall. intros p Hin. apply lppd_valid_safe; auto.
-  - destruct (update_pmtp_params_safe _ _ _ _ _ _ HP H) as (S & _ & _ & E1 & E2 & E3 & E4).
+  - destruct (update_pmtp_params_safe _ _ _ _ _ _ _ HP H) as (S & _ & _ & E1 & E2 & E3 & E4).
     split; [|exact E4]. unfold PolSafe. rewrite E1, E2, E3. auto.
   - destruct (modify_pmtp_rates_safe _ _ _ _ _ HP H) as (S & _ & E1 & E2 & E3 & E4).
     split; [|exact E4]. unfold PolSafe. rewrite E1, E2, E3. auto.
